@@ -239,7 +239,7 @@ func main() {
 		"width: every document of the HTML forest grammar (<=2 nodes over the full label set, <=3 (quick) / <=4 (thorough) nodes over 14 representative labels), and every line sequence "+
 			"of the gemtext/Markdown/plaintext grammars (<=2 / <=3 lines), rendered through object.GetMarkup at 16 widths {1..13,79,80,81}; "+
 			"histories: explicit-state search over the render cache: state = last rendered width, transition = Render(w), all width sequences of length <=2 (quick) / <=3 (thorough) over {1,3,80,81,200} on the complete "+
-			"small document spaces, each result compared byte-for-byte with a fresh parse; nine large documents (code listings of 40/200/700 lines in HTML and Markdown, 300 paragraphs, gemtext and plain listings) at widths 60/80/100 with 3 (quick) / 11 (thorough) short histories that repeat a width; distinct_nontrivial = documents with at least one rendered line break or link")
+			"small document spaces, each result compared byte-for-byte with a fresh parse; nine large documents (code listings of 40/200/700 lines in HTML and Markdown, 300 paragraphs, gemtext and plain listings) at widths 60/80/100 with 3 (quick) / 11 (thorough) short histories that repeat a width; ten documents whose attribute values or text imitate an over-long escape sequence; distinct_nontrivial = documents with at least one rendered line break or link")
 	debug.SetGCPercent(800)
 	if *ev.FlagReplay != "" {
 		var d struct {
@@ -350,6 +350,23 @@ func main() {
 	<-done
 	r.Eval(trans)
 	r.Eval(largePart(r))
+	// attribute values and texts that try to pass for an (over-long) escape sequence: what is
+	// displayed still has to fit the width
+	long := strings.Repeat("wide load ", 12)
+	for _, d := range [][2]string{
+		{"text/html", `<p>x</p><img src="https://l.example/i" alt="&#27;[` + long + `more at the end">`},
+		{"text/html", `<img src="https://l.example/&#27;[` + long + `more at the end">`},
+		{"text/html", `<iframe src="https://l.example/f" title="&#x1b;[` + long + `more at the end"></iframe>`},
+		{"text/html", `<video src="https://l.example/v" alt="&#27;[` + long + `more at the end"></video>`},
+		{"text/html", `<p>&#27;[` + long + `more at the end</p>`},
+		{"text/html", `<a href="https://l.example/&#27;[` + long + `more at the end">l</a>`},
+		{"text/markdown", "![&#27;\\[" + long + "more at the end](https://l.example/i)"},
+		{"text/markdown", "&#27;\\[" + long + "more at the end"},
+		{"text/gemini", "=> https://l.example/u \x1b[" + long + "more at the end"},
+		{"text/plain", "\x1b[" + long + "more at the end"},
+	} {
+		r.Eval(checkWidth(r, d[1], d[0]))
+	}
 	r.States = int64(len(histWidths) + 1)
 	r.Transitions = trans
 	r.Traces = trans
